@@ -30,6 +30,8 @@ def run(rep: core.Report):
     rep.rule("R08b", "Wang method, Python fallback: same closed form (np.dot(q, born) contracts the same Born axis as the kernel, outer product per atom pair, constant = unit 4 pi / V / (q.eps.q), addend / N)", 4)
     rep.rule("R08c", "the Wang addend is the same for all supercell images of a primitive atom (its subscripts do not involve the supercell atom or its lattice vector): necessary for the correction to cancel at non-zero commensurate q", 2)
     rep.rule("R08d", "Gonze-Lee method: the G + q = 0 term along a direction n is n_a n_b / (n.eps.n) (degree 0 in n), absent without a direction; dd is produced from the bare reciprocal sum only through multiply_borns, which is bilinear in the Born charges", 5)
+    rep.rule("R08e", "Gonze-Lee short-range force constants: the dynamical matrices, the dipole-dipole terms subtracted from them and the inverse transform all use the same representatives of the commensurate points (flow-sensitive labels on the point arrays)", 1)
+    _r08e(rep)
     tu = cast.load(DYN)
     ex = celem.ElemExec(tu, where=DYN)
     i, j, n = sp.symbols("i j num_patom", integer=True)
@@ -172,6 +174,90 @@ def run(rep: core.Report):
     rep.note("Not decided: cancellation of the Gonze-Lee reciprocal sum at commensurate q (lattice-sum identity) and its precision; eigenvalues.")
 
 
+def _r08e(rep):
+    fn = core.find_def(PYDM, "DynamicalMatrixGL.make_Gonze_nac_dataset")
+    d2f = None
+    for st in ast.walk(fn):
+        if isinstance(st, ast.Assign) and isinstance(st.value, ast.Call) and core.src(st.value.func) == "DynmatToForceConstants" and isinstance(st.targets[0], ast.Name):
+            d2f = st.targets[0].id
+    if d2f is None:
+        raise AnalysisError("R08e: DynmatToForceConstants object vanished from make_Gonze_nac_dataset")
+    attr = f"{d2f}.commensurate_points"
+    label = {attr: "as generated"}
+    uses = []  # (what, label, node)
+
+    def lab(e, loopenv):
+        t = core.src(e)
+        if t in loopenv:
+            return loopenv[t]
+        if t in label:
+            return label[t]
+        if isinstance(e, ast.Call) and core.src(e.func) in ("np.array", "np.asarray") and e.args:
+            return lab(e.args[0], loopenv)
+        return None
+
+    def visit(stmts, loopenv):
+        for st in stmts:
+            if isinstance(st, ast.Assign):
+                scan(st.value, loopenv)
+                t = core.src(st.targets[0])
+                v = st.value
+                if "shortest_qpoints" in core.src(v):
+                    label[t] = "first-BZ images"
+                else:
+                    lv = lab(v, loopenv)
+                    if lv is not None:
+                        label[t] = lv
+                    elif t in label and t != attr:
+                        del label[t]
+            elif isinstance(st, ast.AugAssign):
+                scan(st.value, loopenv)
+            elif isinstance(st, ast.Expr):
+                scan(st.value, loopenv)
+            elif isinstance(st, ast.For):
+                it = st.iter
+                if isinstance(it, ast.Call) and core.src(it.func) == "enumerate" and it.args:
+                    src_l = lab(it.args[0], loopenv)
+                    tg = st.target.elts[1] if isinstance(st.target, ast.Tuple) and len(st.target.elts) == 2 else None
+                else:
+                    src_l = lab(it, loopenv)
+                    tg = st.target
+                env2 = dict(loopenv)
+                if tg is not None and src_l is not None:
+                    env2[core.src(tg)] = src_l
+                visit(st.body, env2)
+            elif isinstance(st, ast.If):
+                scan(st.test, loopenv)
+                visit(st.body, loopenv)
+                visit(st.orelse, loopenv)
+            elif isinstance(st, (ast.Try, ast.With)):
+                visit(st.body, loopenv)
+
+    def scan(e, loopenv):
+        for c in [x for x in ast.walk(e) if isinstance(x, ast.Call)]:
+            f = core.src(c.func)
+            if f in ("self._run", "self.run") and c.args:
+                uses.append(("dynamical matrix evaluated", lab(c.args[0], loopenv), c))
+            elif f == "run_dynamical_matrix_solver_c" and len(c.args) >= 2:
+                uses.append(("dynamical matrices evaluated", lab(c.args[1], loopenv), c))
+            elif f == "self._get_Gonze_dipole_dipole" and c.args:
+                uses.append(("dipole-dipole term subtracted", lab(c.args[0], loopenv), c))
+            elif f == f"{d2f}.run":
+                uses.append(("inverse transform", label.get(attr), c))
+
+    visit(fn.body, {})
+    kinds = {u[0].split()[0] for u in uses}
+    if not ({"dipole-dipole", "inverse"} <= kinds and ({"dynamical"} & kinds)):
+        raise AnalysisError(f"R08e: consumers of the commensurate points not all found in make_Gonze_nac_dataset ({sorted(kinds)})")
+    if any(u[1] is None for u in uses):
+        rep.unknown("R08e: the point array of " + ", ".join(u[0] for u in uses if u[1] is None) + " is not one of the tracked arrays")
+        return
+    labs = {u[1] for u in uses}
+    shown = "; ".join(f"{u[0]} at the points {u[1]}" for u in uses)
+    rep.instance("R08e", PYDM, "DynamicalMatrixGL.make_Gonze_nac_dataset", shown, len(labs) == 1,
+                 f"{shown}: in phonopy's phase convention D(q+G)_ij = D(q)_ij e^(2 pi i G.(tau_j - tau_i)), so mixing representatives gives short-range force constants with wrong inter-sublattice phases, and the corrected dynamical matrix differs from the uncorrected one at commensurate q", line=uses[0][2].lineno)
+
+
 def selftest():
     V = []
     b = lambda name, file, old, new, rule, expect="", **kw: V.append(dict(name=name, kind="break", file=file, old=old, new=new, rule=rule, expect=expect, **kw))
@@ -183,6 +269,12 @@ def selftest():
     b("python constant loses the dielectric denominator", PYDM, "            unit_conversion * 4.0 * np.pi / volume / np.dot(q.T, np.dot(dielectric, q))", "            unit_conversion * 4.0 * np.pi / volume / np.dot(q.T, q)", "R08b", "_get_constant_factor")
     b("gonze zone-centre term not normalised", DYN, "                        KK[g][i][j] = q_direction_cart[i] *\n                                      q_direction_cart[j] / dielectric_part;", "                        KK[g][i][j] = q_direction_cart[i] *\n                                      q_direction_cart[j];", "R08d", "get_dd")
     b("born dressing uses one charge only", DYN, "                    zz = born[i][m][k] * born[j][n][l];", "                    zz = born[i][m][k];", "R08d", "multiply_borns_at_ij")
+    V.append(dict(name="gonze dataset evaluated at unfolded points", kind="break", rule="R08e", expect="make_Gonze_nac_dataset", edits=[
+        dict(file=PYDM, old="        d2f.commensurate_points = comm_points_in_BZ\n\n        dynmat = []", new="        dynmat = []"),
+        dict(file=PYDM, old="        for i, q_red in enumerate(comm_points_in_BZ):", new="        for i, q_red in enumerate(d2f.commensurate_points):"),
+        dict(file=PYDM, old="        d2f.dynamical_matrices = dynmat\n        d2f.run()", new="        d2f.commensurate_points = comm_points_in_BZ\n        d2f.dynamical_matrices = dynmat\n        d2f.run()"),
+    ]))
+    n("gonze loop over the attribute after the assignment", PYDM, "        for i, q_red in enumerate(comm_points_in_BZ):", "        for i, q_red in enumerate(d2f.commensurate_points):")
     n("charge sum factors reordered", DYN, "                        q_born[i][a] * q_born[j][b] * factor;", "                        factor * q_born[j][b] * q_born[i][a];")
     n("python constant reordered", PYDM, "            unit_conversion * 4.0 * np.pi / volume / np.dot(q.T, np.dot(dielectric, q))", "            4.0 * np.pi * unit_conversion / (volume * np.dot(q.T, np.dot(dielectric, q)))")
     return V
